@@ -171,7 +171,7 @@ let () = Reg.register "c12.shipped" (fun inp out ->
     let src = get_list get_z src in
     let verdict = (match parse_stream out with
       | None -> if atom out = "timeout" then "bad:lexer-does-not-return" else "bad:" ^ atom out
-      | Some (toks, ovf) -> monitor src true toks ovf (get_bool hasline) false None) in
+      | Some (toks, ovf) -> monitor src true toks ovf (get_int hasline >= 1) (get_int hasline >= 2) None) in
     (out, verdict)
   | _ -> failwith "c12.shipped")
 
